@@ -908,7 +908,7 @@ def run(ctx):
     ran = run_batch(ctx, exe, ks, "keys")
     ctx.sample({"suite": "keys", "label": ks[3]["label"], "reqs": ks[3]["reqs"]})
     ctx.close_suite("keys", ran)
-    n = 700 if ctx.quick else 20000
+    n = 4000 if ctx.quick else 120000
     rnd = [random_case(ctx.rng) for _ in range(n)]
     ran = 0
     for i in range(0, len(rnd), 500):
